@@ -42,7 +42,7 @@ func c11CollidingObj(r *rng) *TV {
 
 func genC11(c *Ctx) {
 	r := c.R
-	c.Rule = "random documents in every carrier (including maps whose sibling keys collide under case folding and maps with interface-typed keys) with 6 data-directed queries each (all functions incl. RemoveKeysBy*, Select, AsArray, filters); each operation is evaluated 3..8 times (50 in a thorough sample) interleaved with the other operations of the document, on the data and on a deep copy; oracle: data deep-equal before/after (canonical snapshot), Sprint/structure of the operation unchanged, every answer equal to the first and to that of a freshly parsed copy; finally every kept operation is reused on a document of the same shape with other leaf values - as a separate value and written into the original document in place - and must answer like a freshly parsed copy. distinct = distinct (query skeleton, data shape, outcome class)"
+	c.Rule = "random documents in every carrier (including maps whose sibling keys collide under case folding and maps with interface-typed keys) with 6 data-directed queries each (all functions incl. RemoveKeysBy*, Select, AsArray, filters); each operation is evaluated 3..8 times (50 in a thorough sample) interleaved with the other operations of the document, on the data and on a deep copy; oracle: data deep-equal before/after (canonical snapshot), Sprint/structure of the operation unchanged, every answer equal to the first and to that of a freshly parsed copy; every value handed out is kept and must still be what it was after the later evaluations; finally every kept operation is reused on a document of the same shape with other leaf values - as a separate value and written into the original document in place - and on the same document with its map keys re-cased (one key in three with a colliding sibling spelling beside it) - and must answer like a freshly parsed copy. distinct = distinct (query skeleton, data shape, outcome class)"
 	n := c.scale(5000, 50000)
 	mutations, nondet, opchg, stale := 0, 0, 0, 0
 	for i := 0; i < n; i++ {
@@ -96,11 +96,21 @@ func genC11(c *Ctx) {
 			c.addViolation(Violation{Kind: kind, Query: e.q, QueryHex: hx(e.q), Data: d, Expected: trunc(exp, 300), Got: trunc(got, 300), Why: why, Cls: "history",
 				Key: kind + ":" + lastFunc(e.q)})
 		}
+		type keptRes struct {
+			e     *entry
+			res   any
+			canon string
+		}
+		var kept []keptRes
 		for k := 0; k < rounds; k++ {
 			e := ops[r.Intn(len(ops))]
 			target := data
 			if k%3 == 2 {
 				target = copyData
+			}
+			// the caller keeps what it was handed: a later evaluation must not change it
+			if res, ok := evalRaw(e.op, target); ok {
+				kept = append(kept, keptRes{e, res, canonAny(res)})
 			}
 			got := evalOp(e.op, target).Line()
 			if got != e.first {
@@ -123,6 +133,13 @@ func genC11(c *Ctx) {
 					opchg++
 					report("op-changed", "json.Marshal of the evaluated operation differs from that of a freshly parsed copy", e, string(b2), string(b1))
 				}
+			}
+		}
+		for _, kr := range kept {
+			if now := canonAny(kr.res); now != kr.canon {
+				nondet++
+				report("result-changed", "a result that was handed to the caller changed while later evaluations ran (the data was not touched in between)", kr.e, kr.canon, now)
+				break
 			}
 		}
 		if cp := canonV(reflect.ValueOf(copyData)); cp != canonV(reflect.ValueOf(buildAny(d))) {
@@ -148,6 +165,16 @@ func genC11(c *Ctx) {
 				report("stale-state", "the kept operation, reused on a document with other values, answers differently from a freshly parsed copy of the query", e, want, got)
 			}
 		}
+		// ... and on the same document with its keys spelt in other cases (and sometimes a second, colliding spelling beside them)
+		for round := 0; round < 2; round++ {
+			rdata := buildAny(c11Respell(d, r))
+			for _, e := range ops {
+				if want, got := fresh(e.q, rdata), evalOp(e.op, rdata).Line(); want != got {
+					stale++
+					report("stale-state", "the kept operation, reused on a document whose keys are spelt in another case, answers differently from a freshly parsed copy of the query", e, want, got)
+				}
+			}
+		}
 		if dv, sv := reflect.ValueOf(data), reflect.ValueOf(vdata); dv.Kind() == reflect.Map && sv.Kind() == reflect.Map && dv.Type() == sv.Type() {
 			for _, e := range ops {
 				evalOp(e.op, data) // the last document every kept operation has seen is the one that is about to change
@@ -165,6 +192,20 @@ func genC11(c *Ctx) {
 	}
 	c.Extra["stale_state"] = stale
 	c.Extra["mutations"], c.Extra["nondeterministic"], c.Extra["op_changed"] = mutations, nondet, opchg
+}
+
+// evalRaw: the value Do returns (nil error only), panics contained
+func evalRaw(op mpath.Operation, data any) (res any, ok bool) {
+	defer func() {
+		if r := recover(); r != nil {
+			res, ok = nil, false
+		}
+	}()
+	v, err := op.Do(data, data)
+	if err != nil {
+		return nil, false
+	}
+	return v, true
 }
 
 // c11Variant: the same shape with other leaf values (numbers shifted, booleans flipped, strings extended)
@@ -213,6 +254,78 @@ func c11Variant(t *TV, r *rng) *TV {
 		out := make([][3]any, len(fs))
 		for i, f := range fs {
 			out[i] = [3]any{f[0], f[1], c11Variant(f[2].(*TV), r)}
+		}
+		c.V = out
+	}
+	return &c
+}
+
+// c11Respell: the same document with every map key in a random re-casing; one key in three gets a sibling that differs from it
+// in case only and holds another value
+func c11Respell(t *TV, r *rng) *TV {
+	if t == nil {
+		return nil
+	}
+	c := *t
+	recase := func(k string) string {
+		b := []byte(k)
+		for i, ch := range b {
+			if r.Intn(2) == 0 {
+				switch {
+				case ch >= 'a' && ch <= 'z':
+					b[i] = ch - 32
+				case ch >= 'A' && ch <= 'Z':
+					b[i] = ch + 32
+				}
+			}
+		}
+		return string(b)
+	}
+	switch t.T {
+	case "ptr":
+		if inner, ok := t.V.(*TV); ok {
+			c.V = c11Respell(inner, r)
+		}
+	case "slice", "array":
+		xs := t.V.([]*TV)
+		ys := make([]*TV, len(xs))
+		for i, x := range xs {
+			ys[i] = c11Respell(x, r)
+		}
+		c.V = ys
+	case "map":
+		kvs := t.V.([][2]any)
+		var out [][2]any
+		used := map[string]bool{}
+		for _, kv := range kvs {
+			used[kv[0].(string)] = true
+		}
+		for _, kv := range kvs {
+			ks := kv[0].(string)
+			v := c11Respell(kv[1].(*TV), r)
+			if strings.HasPrefix(ks, "~") {
+				out = append(out, [2]any{ks, v})
+				continue
+			}
+			nk := hx(recase(unhx(ks)))
+			if nk != ks && used[nk] {
+				nk = ks
+			}
+			used[nk] = true
+			out = append(out, [2]any{nk, v})
+			if r.Intn(3) == 0 {
+				if sib := hx(recase(unhx(ks))); !used[sib] {
+					used[sib] = true
+					out = append(out, [2]any{sib, tvF64(float64(900 + r.Intn(99)))})
+				}
+			}
+		}
+		c.V = out
+	case "struct":
+		fs := t.V.([][3]any)
+		out := make([][3]any, len(fs))
+		for i, f := range fs {
+			out[i] = [3]any{f[0], f[1], c11Respell(f[2].(*TV), r)}
 		}
 		c.V = out
 	}
